@@ -376,6 +376,7 @@ type FuncSpec struct {
 	AtCall    []*Clause // asserted at matching call sites
 	NoPanic   *Clause   // labels for implicit safety obligations
 	CtxAware  *Clause   // every blocking channel operation must have a ctx.Done() alternative
+	NonBlock  *Clause   // the function performs no blocking channel operation at all
 	Modifies  []string  // heap arrays a caller must havoc ("*" = everything)
 	HasMod    bool
 	MakeChans []GhostMakeChan
@@ -599,12 +600,12 @@ func (sp *Specs) readFile(path string) error {
 			cur.LoopInv[n] = append(cur.LoopInv[n], c)
 		case "atcall":
 			// atcall[labels] <calleeSubstr>#k : expr
-			i := strings.Index(rest, ":")
+			i := strings.Index(rest, " : ")
 			if cur == nil || i < 0 {
-				return fail("bad atcall")
+				return fail("bad atcall (expected '<callee> : <expr>')")
 			}
 			site := strings.TrimSpace(rest[:i])
-			c, err := mk("atcall", strings.TrimSpace(rest[i+1:]))
+			c, err := mk("atcall", strings.TrimSpace(rest[i+3:]))
 			if err != nil {
 				return err
 			}
@@ -620,6 +621,11 @@ func (sp *Specs) readFile(path string) error {
 				return fail("nopanic outside func")
 			}
 			cur.NoPanic = &Clause{Kind: "nopanic", Labels: labels, File: path, Line: l.n, Func: cur.Key}
+		case "nonblocking":
+			if cur == nil {
+				return fail("nonblocking outside func")
+			}
+			cur.NonBlock = &Clause{Kind: "nonblocking", Labels: labels, File: path, Line: l.n, Func: cur.Key}
 		case "ctxaware":
 			if cur == nil {
 				return fail("ctxaware outside func")
